@@ -68,6 +68,9 @@ def accumulator_writes(ctx):
                             else:
                                 out.append((f, n, "BAD", "entry `%s` is (re)initialised without an absence test: counts already "
                                                           "gathered under that key are lost" % norm(t)))
+                        elif isinstance(n.value, ast.Name) and n.value.id in f.local_names and (d_ := _single_def(f, n.value.id)) is not None \
+                                and isinstance(d_, ast.BinOp) and isinstance(d_.op, ast.Add) and is_lit(d_.right, 1) and norm(d_.left) == norm(t):
+                            out.append((f, n, "inc", "increment by exactly 1 (through a local: v = d[k] + 1; d[k] = v)"))
                         elif _is_get_increment(n.value, t):
                             out.append((f, n, "inc", "increment by exactly 1 (d[k] = d.get(k, 0) + 1: absence initialisation and "
                                                      "increment in one statement)"))
